@@ -200,6 +200,14 @@ inline model::Hints gen_hints(Chooser& c) {
   return h;
 }
 inline std::string gen_utf8(Chooser& c) {
+  if (c.range(0, 11) == 0) {
+    // long, non-periodic text (several encoder buffers): numbered pieces, some multi-byte characters
+    size_t target = (size_t)c.pick<int>({2040, 2049, 4097, 5000, 6500, 9000, 13000});
+    std::string s;
+    unsigned salt = (unsigned)c.range(0, 999);
+    for (unsigned i = 0; s.size() < target; i++) { s += "host-" + std::to_string(i * 7 + salt) + (i % 5 == 0 ? "-\xC3\xA9," : ","); }
+    return s;
+  }
   return c.pick<const char*>({"", "none", "Na\xC3\xAFve-\xE2\x82\xAC", "\xF0\x9F\x98\x80", "a-much-longer-method-description-0123456789-0123456789"});
 }
 struct BpOpts {
